@@ -324,7 +324,7 @@ def abstract_state(mol, K, MK, unit_pm):
 
 
 # ------------------------------------------------------------------ recorder
-def record_run(mol, ljson, K, MK, unit_pm, seg_len=None, with_before=True):
+def record_run(mol, ljson, K, MK, unit_pm, seg_len=None, with_before=True, proc=None):
     """Run the real DoLinks.run_molecule on `mol` (its force field holds exactly the links abstracted in `ljson`).
     Returns a list of run events (one per segment of `seg_len` consecutive links)."""
     import vermouth.processors.do_links as dl
@@ -358,7 +358,8 @@ def record_run(mol, ljson, K, MK, unit_pm, seg_len=None, with_before=True):
     dl.match_link = spy
     LinkParameterEffector.__call__ = tagged
     try:
-        dl.DoLinks().run_molecule(mol)
+        # `proc`: one processor object used for many molecules (nothing of an earlier molecule may stick to it)
+        (proc if proc is not None else dl.DoLinks()).run_molecule(mol)
     finally:
         dl.match_link = orig_match
         LinkParameterEffector.__call__ = orig_call
